@@ -114,7 +114,8 @@ class MessageSerializer(object):
 
     result_spec = getattr(result_cls, 'thrift_spec', None)
     if result_spec:
-      exceptions = result_spec[1:]
+      # thrift_spec is indexed by field id, ids the IDL does not use are None.
+      exceptions = [e for e in result_spec[1:] if e is not None]
       for e in exceptions:
         attr_val = getattr(result, e[2], None)
         if attr_val is not None:
